@@ -30,7 +30,8 @@ PLAN = {
     'C15': {
         'fronts': [],
         'bounded': [],
-        'assumptions': ['indent/width are None or int (not bool), line_break is None or str -- the types dump() documents'],
+        'assumptions': ['indent/width are None or int (not bool), line_break is None or str -- the types dump() documents',
+                        'the stream is modelled by a ghost log of the chunks handed to write(); a codec that cannot encode a chunk raises UnicodeEncodeError, which passes through'],
         'explanation': 'contracts on the emitter functions that implement the formatting options',
     },
     'C19': {
@@ -46,5 +47,37 @@ PLAN = {
                         'constructor protocol (PROTO) is assumed of registered constructors and of generator resumption',
                         'descend_resolver / ascend_resolver / resolve are used through their frames only'],
         'explanation': 'composer: alias = identity of the anchored node, define-before-use, duplicate rejection, node registered before its children, anchors reset per document; constructor: node->object cache, recursion guard, deep flag restored, caches reset per document',
+    },
+    'C09': {
+        'fronts': [], 'bounded': [],
+        'assumptions': ['the token source delivers an arbitrary scanner-shaped token sequence (wf_tokens): STREAM-START first, STREAM-END last and only last, Mark objects with ordered indices in [0, N]; check_token/peek_token/get_token are assumed against that ghost sequence',
+                        'Reader.update is used through its abstract window contract (buffer is a window of the ghost text S, position unchanged)',
+                        'lemma msum >= 0 (induction on the parser stack, weights 0/1) is stated, not machine-checked'],
+        'explanation': 'reader: index/line/column equal the counted spec functions after forward(); get_mark copies them and lies inside the input; parser: for every state, every next-token class and every well-typed stack, the event marks satisfy 0 <= start <= end <= N and first-token.start <= start <= next-token.start, stack pops are safe, the asserts at STREAM-END hold',
+    },
+    'C03': {
+        'fronts': [], 'bounded': [],
+        'assumptions': ['token source / event source abstractions as in C09 / C13', 'the scanner functions are not under contract yet: ScannerError-only behaviour of the scanner is NOT claimed'],
+        'explanation': 'parser and composer functions raise only ParserError / ComposerError (YAMLError) or what the layer below raises, for arbitrary token / event sequences; no IndexError, AttributeError, TypeError, UnboundLocalError, AssertionError is reachable; reader primitives are index-safe',
+    },
+    'C12': {
+        'fronts': [], 'bounded': [],
+        'assumptions': ['the stream is modelled by a ghost log of the chunks handed to write()', 'scalar writers and analyze_scalar are not under contract: "no content line starts with --- / ..." is NOT claimed'],
+        'explanation': 'emitter: only the first document may omit the --- marker and only when nothing asks for it, explicit_end writes ..., tag prefixes are rebuilt per document, write_indent puts the marker at column 0; parser: document loop (DOCUMENT-END skipping, directives consumed, implicit documents get the default handles)',
+    },
+    'C05': {
+        'fronts': [], 'bounded': [],
+        'assumptions': ['prepare_anchor / prepare_tag / analyze_scalar are used through assumed shape contracts', 'the text-level inverse emit -> parse is NOT claimed (scalar writers and scanners are outside)'],
+        'explanation': 'emitter: prepared anchor/tag are consumed on every path (nothing leaks to the next node), the tag is elided only when the event says it is implicit for the style actually used, style choice respects the analysis, the first/last states accept only STREAM-START / nothing and reject everything else with EmitterError',
+    },
+    'C02': {
+        'fronts': [], 'bounded': [],
+        'assumptions': ['only the block-scalar header, the style choice and the tag elision rule are under contract; the end-to-end inverse is NOT claimed'],
+        'explanation': 'determine_block_hints: indentation indicator exactly when the text starts with a space or break, chomping indicator by the trailing breaks; choose_scalar_style / process_tag: plain only when implicit and allowed by the analysis',
+    },
+    'C07': {
+        'fronts': [], 'bounded': [],
+        'assumptions': ['Reader.update (the refill loop, decoding, chunking) is used through its abstract contract here; chunk-size independence of update itself is NOT discharged yet'],
+        'explanation': 'everything downstream of the Reader sees only peek/prefix/forward/get_mark whose contracts are stated over the ghost text and position and never mention buffer, pointer or chunk sizes; a BOM does not advance the column; CR LF is one break (one character of look-ahead is always buffered)',
     },
 }
